@@ -1,68 +1,43 @@
 import WhVerif.Model.C13
+import WhVerif.Model.C13Bridge
 /-!
-# C13 model, part 2: `unphase_header` and the whole file
+# C13 model, part 3: the whole file
 
-Core Lean only.  A header is the list of its `##` lines as pysam's `header.records` presents them: `key` (`FORMAT`, `INFO`,
-`contig`, …, or the key of a generic `##key=value` line), the `ID` of a structured line, and the text of the line.
-
-`unphase_header` does
-```
-for hr in header.records:
-    if hr.key == "phasing": hr.remove(); break          # the FIRST such line only
-for tag in TAGS_TO_REMOVE:
-    if tag in header.formats: header.formats.remove_header(tag)
-```
-* `unphaseHeaderCur` — as in /repo HEAD (only the first `##phasing` line goes);
-* `unphaseHeaderFix` — after `fixes/F76.patch` (every `##phasing` line goes).
-
-`unphaseFileCur` / `unphaseFileFix` = header + records (`unphase`, the specification function of `Model/C13.lean`, which the
-record loop of HEAD equals since F2 was repaired: `Props.C13.total`).
+Core Lean only.  The header function itself is `unphaseHeader` / `unphaseHeaderFix` of `Model/C13Bridge.lean` (on
+`C04.HLine`; `unphaseHeaderFix` = /repo since 3f23520, F61 = F76).  Added here: the lines `unphase` has no business with
+(`keepLine`), a file = header + records (`VcfFile`, `unphaseFileCur` with the pre-3f23520 header function, `unphaseFileFix`
+with the repaired one; records through `unphase`, which the record loop equals: `Props.C13.total`), and "the header declares
+every FORMAT key the records use" (`Declared`: what htslib needs to serialise a record).
 -/
 namespace WhVerif.C13
-
-structure HLine where
-  key : String
-  id : Option String
-  text : String
-deriving DecidableEq, Repr
+open WhVerif
 
 /-- `hr.key == "phasing"` (case-sensitive; also a structured `##phasing=<…>` line) -/
-def isPhasing (l : HLine) : Bool := l.key == "phasing"
+def isPhasingLine (l : C04.HLine) : Bool := decide (l.key = "phasing")
 
-/-- a `##FORMAT=<ID=HP|PQ|PS,…>` definition (an `##INFO` line of the same ID is something else) -/
-def isPhaseFormat (l : HLine) : Bool :=
-  l.key == "FORMAT" && (match l.id with
-    | some i => isPhaseTag i
-    | none => false)
+/-- a line `unphase` has no business with: neither a `##phasing` line nor a FORMAT definition of HP / PQ / PS -/
+def keepLine (l : C04.HLine) : Bool := !(isPhasingLine l || isPhaseFormat l)
 
-/-- a line `unphase` has no business with -/
-def keepLine (l : HLine) : Bool := !(isPhasing l || isPhaseFormat l)
-
-/-- remove the first element satisfying `p` -/
-def removeFirst (p : HLine → Bool) : List HLine → List HLine
+/-- remove the first element satisfying `p` (`C04.removeFirstPhasing` is the instance `p = isPhasingLine`) -/
+def removeFirst {α : Type} (p : α → Bool) : List α → List α
   | [] => []
   | l :: ls => if p l then ls else l :: removeFirst p ls
 
-def unphaseHeaderCur (h : List HLine) : List HLine := (removeFirst isPhasing h).filter (fun l => !isPhaseFormat l)
-
-def unphaseHeaderFix (h : List HLine) : List HLine := h.filter keepLine
-
 structure VcfFile where
-  header : List HLine
+  header : List C04.HLine
   records : List Record
 deriving DecidableEq, Repr
 
-def unphaseFileCur (f : VcfFile) : VcfFile := { header := unphaseHeaderCur f.header, records := unphase f.records }
+/-- header function as it was before 3f23520 (only the first `##phasing` line goes) -/
+def unphaseFileCur (f : VcfFile) : VcfFile := { header := unphaseHeader f.header, records := unphase f.records }
+/-- header function after fixes/F61.patch (= F76.patch; /repo since 3f23520) -/
 def unphaseFileFix (f : VcfFile) : VcfFile := { header := unphaseHeaderFix f.header, records := unphase f.records }
 
 /-- the FORMAT keys a record uses: `GT` if it has one, and the keys of its other fields -/
 def callKeys (c : Call) : List String := (if c.gt.isSome then ["GT"] else []) ++ c.fields.map (·.1)
 def recordKeys (r : Record) : List String := r.calls.flatMap callKeys
 
-/-- the header declares FORMAT key `k` -/
-def declares (h : List HLine) (k : String) : Bool := h.any (fun l => l.key == "FORMAT" && l.id == some k)
-
-/-- every FORMAT key used by a record is declared (what htslib needs to write the file) -/
-def Declared (f : VcfFile) : Prop := ∀ r ∈ f.records, ∀ k ∈ recordKeys r, declares f.header k = true
+/-- every FORMAT key used by a record is declared in the header -/
+def Declared (f : VcfFile) : Prop := ∀ r ∈ f.records, ∀ k ∈ recordKeys r, C04.defined f.header "FORMAT" k = true
 
 end WhVerif.C13
